@@ -81,6 +81,7 @@ func (c *FnCtx) exec(in ssa.Instruction) {
 		t := in.Type().Underlying().(*types.Pointer).Elem()
 		r := c.allocRef(in.Comment)
 		c.setVal(in, Val{T: r, Ty: in.Type()})
+		c.allocOf[r] = in
 		if allocIsLocal(in, 0) {
 			c.localCells = append(c.localCells, r)
 		}
